@@ -176,6 +176,19 @@ Definition print (l : label) : str :=
     if is_all_sub l then (if is_nil (l_pkg l) then s1 ++ lit "..." else s1 ++ lit "/...")
     else s1 ++ lit ":" ++ l_name l.
 
+(* ---- the known ways a parsed label fails to print to something that parses back to it ------------------------- *)
+
+Inductive defect := ImpliedNameUnvalidated | SubrepoTrailingSlash | OriginalTargetSentinel.
+
+(* ImpliedNameUnvalidated: the name is not a valid target name (only the short forms //pkg, @sub, ///sub produce one:
+   they take the last path component unchecked).  SubrepoTrailingSlash: the subrepo ends in '/' (@sub/:name).
+   OriginalTargetSentinel: //:_ORIGINAL, which String() prints as "command-line targets". *)
+Definition defect_class (l : label) : option defect :=
+  if label_eqb l original_target then Some OriginalTargetSentinel
+  else if negb (valid_name (l_name l)) then Some ImpliedNameUnvalidated
+  else if last_is 47 (l_sub l) then Some SubrepoTrailingSlash
+  else None.
+
 (* ---- Includes / Matches / Parent ------------------------------------------------------------------------ *)
 
 Definition includes (pat that : label) : bool :=
